@@ -173,6 +173,15 @@ def run(ctx):
     from lib.peg import Grammar as G_
     P_.string_atomic(ctx, "C06.R7", G_(ctx.grammar))
 
+    # ---- R8 the equality the statement is phrased in
+    ctx.rule("C06.R8", "`.==` on structured values is structural: Value::equals compares lists element by element and records key by key through equals itself (so a value that survived the round trip compares equal to the original, nulls and nested records included)", floor=2)
+    from rules import c12 as c12_
+    from lib import sig as S_
+    _t, _i = S_.TEMPLATES, S_.INLINE
+    S_.TEMPLATES = lambda n: ";".join(H.template_text(t) for t in H.macro_templates(core, n)) or None
+    c12_.structural_equality(ctx, "C06.R8", core)
+    S_.TEMPLATES, S_.INLINE = _t, _i
+
     # ---- R4 every member of an input object is bound
     ctx.rule("C06.R4", "parse_json_inputs inserts every (key, value) of an input object: the insert is conditional only on the Ok of the value conversion, keyed by the member's own key", floor=1)
     member_insert_rule(ctx, cli, "C06.R4")
